@@ -24,6 +24,11 @@ pub struct Step {
     /// `reg`'s offset), more than the clock's inbox holds
     #[serde(default)]
     pub flood: u32,
+    /// get_time only: the caller goes away - its future is dropped after it has been polled once
+    /// (the request is already queued at the clock); nothing is recorded for it unless it had
+    /// been answered by then
+    #[serde(default)]
+    pub abandon: bool,
 }
 
 #[derive(Serialize, Deserialize, Clone, Debug)]
@@ -150,7 +155,7 @@ impl Check for C11 {
         "E1 single-node engine: the real Clock actor with 2-8 concurrent caller tasks (get_time / register_ts) under seeded virtual delays, wall clock advancing, stalled or jumping"
     }
     fn rule(&self) -> &'static str {
-        "Cases: 2-8 caller tasks, each 1-25 steps of get_time or register_ts(remote) separated by seeded virtual delays 0-6 ms (zero delays make callers contend for the actor's channel in seeded orders); one case in twelve adds a flood of 1100-2500 back-to-back register_ts calls (more than the clock's 1000-slot inbox) followed by a get_time; remote stamps behind / at / ahead of the wall clock within and beyond the drift limit, from other nodes or the clock's own id, counters 0..65535; 0-3 wall-clock jumps of up to 10 minutes either way (so that, together with accepted remote leads of up to 33 minutes, the clock never has to refuse for drift - that refusal is C09's subject). Invocations and returns are stamped with a global event sequence number. Oracle over the history: returned stamps pairwise distinct; per task strictly increasing; a get_time invoked after register_ts(r) returned yields > r unless r was beyond the drift limit (or carried the clock's own node id). Non-trivial = >= 2 tasks overlap and >= 1 register_ts. Distinct = hash of the returned-stamp order."
+        "Cases: 2-8 caller tasks, each 1-25 steps of get_time or register_ts(remote) separated by seeded virtual delays 0-6 ms; one get_time in eight is abandoned by its caller (the future is dropped once the request is queued at the clock) (zero delays make callers contend for the actor's channel in seeded orders); one case in twelve adds a flood of 1100-2500 back-to-back register_ts calls (more than the clock's 1000-slot inbox) followed by a get_time; remote stamps behind / at / ahead of the wall clock within and beyond the drift limit, from other nodes or the clock's own id, counters 0..65535; 0-3 wall-clock jumps of up to 10 minutes either way (so that, together with accepted remote leads of up to 33 minutes, the clock never has to refuse for drift - that refusal is C09's subject). Invocations and returns are stamped with a global event sequence number. Oracle over the history: returned stamps pairwise distinct; per task strictly increasing; a get_time invoked after register_ts(r) returned yields > r unless r was beyond the drift limit (or carried the clock's own node id). Non-trivial = >= 2 tasks overlap and >= 1 register_ts. Distinct = hash of the returned-stamp order."
     }
     fn assumptions(&self) -> Vec<String> {
         vec![
@@ -184,11 +189,11 @@ impl Check for C11 {
             // by two tasks - the counter crosses the limit (the actor pauses 1 ms per request) but
             // stays clear of exhaustion
             let other = if node == 9 { 10 } else { 9 };
-            let mut t0 = vec![Step { delay_ms: rng.gen_range(0..3), reg: Some((rng.gen_range(8..40), rng.gen_range(65_515..=65_523), other)), flood: 0 }];
+            let mut t0 = vec![Step { delay_ms: rng.gen_range(0..3), reg: Some((rng.gen_range(8..40), rng.gen_range(65_515..=65_523), other)), flood: 0, abandon: false }];
             for _ in 0..rng.gen_range(1..=4) {
-                t0.push(Step { delay_ms: rng.gen_range(0..4), reg: None, flood: 0 });
+                t0.push(Step { delay_ms: rng.gen_range(0..4), reg: None, flood: 0, abandon: false });
             }
-            let t1: Vec<Step> = (0..rng.gen_range(1..=4)).map(|_| Step { delay_ms: rng.gen_range(0..4), reg: None, flood: 0 }).collect();
+            let t1: Vec<Step> = (0..rng.gen_range(1..=4)).map(|_| Step { delay_ms: rng.gen_range(0..4), reg: None, flood: 0, abandon: false }).collect();
             return serde_json::to_value(Scenario { base_ms: rng.gen_range(5_000_000_000u64..60_000_000_000), node, events: vec![t0, t1], wall: vec![] }).unwrap();
         }
         let tasks = rng.gen_range(2..=8);
@@ -221,7 +226,8 @@ impl Check for C11 {
                 } else {
                     None
                 };
-                steps.push(Step { delay_ms, reg, flood: 0 });
+                let abandon = reg.is_none() && rng.gen_bool(0.12);
+                steps.push(Step { delay_ms, reg, flood: 0, abandon });
             }
             events.push(steps);
         }
@@ -229,8 +235,8 @@ impl Check for C11 {
             // one task floods the clock with more registrations than its inbox (1000) holds
             let n = rng.gen_range(1_100..2_500);
             let other = if node == 7 { 8 } else { 7 };
-            events[0].push(Step { delay_ms: rng.gen_range(0..5), reg: Some((rng.gen_range(0..60_000), 0, other)), flood: n });
-            events[0].push(Step { delay_ms: 0, reg: None, flood: 0 });
+            events[0].push(Step { delay_ms: rng.gen_range(0..5), reg: Some((rng.gen_range(0..60_000), 0, other)), flood: n, abandon: false });
+            events[0].push(Step { delay_ms: 0, reg: None, flood: 0, abandon: false });
         }
         let mut wall = Vec::new();
         for _ in 0..rng.gen_range(0..=3) {
@@ -257,6 +263,7 @@ impl Check for C11 {
         let wall = Rc::new(VirtualWall::install(sc.base_ms));
         let seq = Rc::new(Cell::new(0u64));
         let recs: Rc<RefCell<Vec<Rec>>> = Rc::new(RefCell::new(Vec::new()));
+        let abandoned: Rc<Cell<u64>> = Rc::new(Cell::new(0));
         let node = sc.node;
         let stuck = Rc::new(Cell::new(false));
         rt.block_on(async {
@@ -274,7 +281,7 @@ impl Check for C11 {
             }
             let start = tokio::time::Instant::now();
             for (ti, steps) in sc.events.iter().enumerate() {
-                let (clock, steps, seq, recs, wall) = (clock.clone(), steps.clone(), seq.clone(), recs.clone(), wall.clone());
+                let (clock, steps, seq, recs, wall, abandoned) = (clock.clone(), steps.clone(), seq.clone(), recs.clone(), wall.clone(), abandoned.clone());
                 local.spawn_local(async move {
                     for st in steps {
                         if st.delay_ms > 0 {
@@ -290,6 +297,16 @@ impl Check for C11 {
                             eprintln!("task {ti} step {:?} at {:?}", st.reg, tokio::time::Instant::now());
                         }
                         match st.reg {
+                            None if st.abandon => {
+                                let inv = next(&seq);
+                                if let Some(ts) = crate::framework::GiveUpAfterPolls::new(clock.get_time(), 1).await {
+                                    let ret = next(&seq);
+                                    let vt_ret = tokio::time::Instant::now().saturating_duration_since(start).as_millis() as u64;
+                                    recs.borrow_mut().push(Rec::Got { task: ti, inv, ret, ts, vt_ret });
+                                } else {
+                                    abandoned.set(abandoned.get() + 1);
+                                }
+                            },
                             None => {
                                 let inv = next(&seq);
                                 let ts = clock.get_time().await;
@@ -338,6 +355,7 @@ impl Check for C11 {
             out.violate("C11/caller-never-answered", "a get_time / register_ts call was still unanswered after two virtual hours");
         }
         let recs = recs.borrow().clone();
+        out.fault_n("get_time_abandoned_by_its_caller", abandoned.get());
         let mut gots: Vec<(usize, u64, u64, HLCTimestamp, u64)> = recs.iter().filter_map(|r| if let Rec::Got { task, inv, ret, ts, vt_ret } = r { Some((*task, *inv, *ret, *ts, *vt_ret)) } else { None }).collect();
         gots.sort_by_key(|g| g.2);
         let mut tr = Fnv::new();
